@@ -285,6 +285,19 @@ def run(rep, tier, driver):
     mnames = list(cv.names) + [c + x for c in ("Glc", "Gal", "Man", "Neu", "Kdo") for x in ("NAc", "2NAc", "6S", "A", "5Ac", "N", "3Me6S", "f", "p a")] + \
         ["ManHep", "LDManHep", "GalOct", "Hep", "Hex", "Oct", "D-Glc", "L-Fuc", "6dTal", "Glc-ol"]
     queryx.run_match(rep, tier, driver, mnames, rng)
+    # the Lean Model of count(match_nodes=True) (Embed.count; C16_contains_itself) against glycan.py on small glycans: the glycan itself,
+    # its sub-chains and single residues as queries, every linkage-label shape
+    cpairs = []
+    for s, queries, t in cases:
+        if t.size() <= 6:
+            for q in list(dict.fromkeys(q for q, fl in queries if fl.get("match_nodes")))[:5]:
+                cpairs.append((s, q))
+    for s, qs, _, _ in lcases:
+        for q in list(dict.fromkeys(q for q, _ in qs))[:3]:
+            cpairs.append((s, q))
+    cpairs += [("Man(a1-3)[Man(a1-6)]Man", "Man(a1-6)Man"), ("Man(a1-3)[Man(a1-6)]Man", "Man"), ("Gal(b1-4)GlcNAc(b1-3)Gal(b1-4)GlcNAc", "Gal(b1-4)GlcNAc"),
+               ("Gal(b1-4)GlcNAc(b1-3)Gal(b1-4)GlcNAc", "GlcNAc(b1-3)Gal"), ("Neu5Ac(a2-3)Gal(b1-4)Glc", "Neu5Ac(a2-6)Gal"), ("Glc6S(a1-4)Glc", "Glc(a1-4)Glc")]
+    queryx.run_count(rep, tier, driver, cpairs)
 
 
 def replay(body):
